@@ -138,6 +138,8 @@ def dyn_event(c):
                             use_wave_eq=bool(c["use_wave_eq"]))
             th = [0.0, 37.0, 120.0, 455.5]
             ev["beams"] = int(len(bw))
+            # reflections with a component along the beam (higher-order Laue zones on a zone axis, nearly all when tilted)
+            ev["out_of_plane_beams"] = bool((np.abs(np.asarray(bw.g_vec, dtype=float)[:, 2]) > 1e-9).any())
             dp = bw.calculate_diffraction_patterns(th, lazy=False)
             inten = np.asarray(dp.array, dtype=float)
             ev["sum_ppb"] = [ppb(abs(float(s) - 1.0)) for s in inten.sum(-1)]
